@@ -40,6 +40,8 @@ type FuncCtx struct {
 	localN    int
 	siteN     map[string]int
 	initMode  bool
+	usedConsts map[*Term]bool
+	bigWrites  []bigWrite
 }
 
 func (fc *FuncCtx) note(s string) { fc.notes[s] = true }
